@@ -39,6 +39,9 @@ func init() {
 			{ID: "C20.R16", Text: "no worker blocks for ever on reporting: a channel that goroutines started in a loop send on, and that is read only after waiting for them, has room for every one of them (capacity = length of the list the workers are started over)", Run: workerResultChannels},
 			{ID: "C20.R17", Text: "the deadline of an operation is the timeout that was configured: defaulting never rewrites a configured duration — every default store is guarded by the zero test of its own field, no store through a pointer into the configuration (same rule as C17.R1)", Run: c17r1},
 			{ID: "C20.R18", Text: "no outcome is invented by swallowing an error: module-wide error discipline (same rule as C15.R26)", Run: errorDiscipline},
+			{ID: "C20.R19", Text: "no layer in front of an implementation changes what it answers: every type of the module that implements one of the module's interfaces and holds a value of it (a decorator: read-only metadata today) hands each call on exactly — one inner call with its own arguments on every path, results untouched — except the methods that are opaque by design (frozen table)", Run: decoratorsTransparent()},
+			{ID: "C20.R20", Text: "what is installed is what was handed in: nowhere in the module is a collaborator (a value of interface or function type) replaced by a wrapper around it — a function from T to T, or a method value of an object built from it — except the known read-only metadata wrapper", Run: noNewLayers},
+			{ID: "C20.R21", Text: "a completion neither blocks nor panics: every integer division or modulo by something other than a non-zero constant runs only where that divisor was tested non-zero (frozen exception: the chunking helper, whose divisor is the group size)", Run: noUnguardedDivision},
 			{ID: "C20.R4", Text: "a deadline exists for every operation (own deadline from time.Now, or a deadline-bearing context at every call site)", Run: c20r4},
 		},
 	})
